@@ -170,6 +170,24 @@ def _pipeline_at(core, cg, STOP, site, need_both=True):
     roots = []
     for g, op in cur:
         roots += deep_origins(cg, g, op, stop_calls=STOP)
+    # `resume(id, data).map(|()| self.core.process())`: the Ok payload of Result::map is what the closure given to it returns
+    for _ in range(3):
+        more, changed = [], False
+        for h, o in roots:
+            if o.kind == 'call' and call_matches(o.term, ['core::result::Result::map', 'core::option::Option::map', 'core::result::Result::and_then']) and \
+                    len(o.term['args']) > 1:
+                clos = [core.by_exact(x.stmt['rv']['def']) for x in origins(h, o.term['args'][1]) if x.kind == 'agg' and x.stmt['rv'].get('ak') == 'closure']
+                if clos and all(c_ is not None for c_ in clos):
+                    payload = [tok for tok in o.suffix if tok not in ('as Ok', '.0', 'as Continue', 'as Some')]
+                    for c_ in clos:
+                        inner = {'l': 0, 'p': (['as Ok', '.0'] if last_seg(o.term['callee']) == 'and_then' else []) + payload}
+                        more += deep_origins(cg, c_, inner, stop_calls=STOP)
+                    changed = True
+                    continue
+            more.append((h, o))
+        roots = more
+        if not changed:
+            break
     from_core = bool(roots) and all(o.kind == 'call' and call_matches(o.term, ['crux_core::core::Core::process_event', 'crux_core::core::Core::process'])
                                     and [tok for tok in o.suffix if tok not in ('as Ok', '.0', 'as Continue')] == [] for h, o in roots)
     ents = set(last_seg(o.term['callee']) for h, o in roots if o.kind == 'call')
